@@ -589,7 +589,7 @@ STREAM_TOOLS = {
     "zip": ({"strict": False}, 0), "map": ({"z": 0}, 0), "filter": ({"pred": True}, 0), "filterfalse": ({"pred": True}, 0),
     "enumerate": ({"start": 0}, 0), "accumulate": ({"init": False, "fn": "func"}, 0), "batched": ({"n": 4, "strict": False}, 4),
     "chain": ({"outer": False}, 0), "compress": ({"z": 0}, 0), "dropwhile": ({"z": 0}, 0), "takewhile": ({"z": 0}, 0),
-    "islice": ({"start": 2, "stop": -1, "step": 3}, 0), "pairwise": ({"z": 0}, 0), "starmap": ({"z": 0}, 0), "zip_longest": ({"z": 0}, 0),
+    "islice": ({"start": 2, "stop": -1, "step": 3}, 0), "pairwise": ({"z": 0}, 0), "starmap": ({"z": 0}, 0), "zip_longest": ({"fill": "fresh"}, 0),
     "merge": ({"key": True, "rev": False}, 0),
     "all": ({"z": 0}, 0), "any": ({"z": 0}, 0), "sum": ({"startv": "zero"}, 0), "min": ({"key": True, "dflt": "no"}, 0), "max": ({"key": False, "dflt": "no"}, 0),
     "reduce": ({"init": True}, 0), "nlargest": ({"key": True, "n": 5}, 5), "nsmallest": ({"key": False, "n": 5}, 5),
